@@ -80,7 +80,8 @@ def coq_eval(text, timeout=600, name='cases'):
     path = os.path.join(d, name + '.v')
     with open(path, 'w') as f:
       f.write(text)
-    p = subprocess.run(['timeout', str(timeout), 'coqc'] + QFLAGS + [path], cwd=d,
+    p = subprocess.run(['bash', '-c', 'ulimit -s unlimited 2>/dev/null; exec "$@"', 'sh',
+                        'timeout', str(timeout), 'coqc'] + QFLAGS + [path], cwd=d,
                        stdout=subprocess.PIPE, stderr=subprocess.STDOUT, text=True)
     return p.returncode, p.stdout
   finally:
